@@ -233,10 +233,13 @@ def leaves(ctype, expr, tinfo, off=0):
     raise Infra("cannot flatten C type %r" % ctype)
 
 
-def bits_at(lv, off, nbytes, wrap=None):
+def bits_at(lv, off, nbytes, wrap=None, pure=False):
     """unsigned-integer C expression (width nbytes*8) for bytes [off, off+nbytes) of a flattened value;
     wrap is applied to every leaf lvalue (used for __CPROVER_old, which only accepts side-effect-free lvalues)"""
     U = {1: "u8", 2: "u16", 4: "u32", 8: "u64"}[nbytes]
+    if pure:
+        # loop invariants must be free of function calls: the bit pattern of a float leaf is read through a pointer cast
+        lv = [(o, n, "u" if k == "f" else k, "(*(u%d*)&(%s))" % (n * 8, e) if k == "f" else e) for (o, n, k, e) in lv]
     if wrap:
         lv = [(o, n, k, wrap(e)) for (o, n, k, e) in lv]
     for (o, n, k, e) in lv:
@@ -261,9 +264,10 @@ def bits_at(lv, off, nbytes, wrap=None):
 class Val:
     """A batch-like value living at C expression `expr` of ll2c type `ctype` (by value or through a pointer)."""
 
-    def __init__(self, ctype, expr, tinfo, old=False, native=False):
+    def __init__(self, ctype, expr, tinfo, old=False, native=False, pure=False):
         self.ctype, self.expr, self.tinfo = ctype, expr, tinfo
         self.native = native
+        self.pure = pure
         if ctype.endswith("*"):
             self.lv = leaves(ctype[:-1].strip(), "(*%s)" % expr, tinfo)
             self.by_ptr = True
@@ -274,7 +278,15 @@ class Val:
         self.size = max(o + n for (o, n, k, e) in self.lv) if self.lv else 0
 
     def bits(self, off, nbytes):
-        return bits_at(self.lv, off, nbytes, (lambda e: "__CPROVER_old(%s)" % e) if self.old else None)
+        return bits_at(self.lv, off, nbytes, (lambda e: "__CPROVER_old(%s)" % e) if self.old else None, pure=getattr(self, "pure", False))
+
+    def flt(self, tid, i):
+        """the floating-point value of lane i as a call-free expression (for loop invariants)"""
+        w = TYPES[tid][2] // 8
+        for (o, n, k, e) in self.lv:
+            if o == i * w and n == w:
+                return e if k == "f" else "(*(f%d*)&(%s))" % (w * 8, e)
+        raise Infra("no leaf for float lane %d" % i)
 
     def lane(self, tid, i, base=0):
         w = TYPES[tid][2] // 8
